@@ -228,8 +228,25 @@ Fixpoint lst_loop (is_sep : tree -> bool) (a : list N) (is_ref : bool) (l : list
       end
   end.
 
-(* next(n for n in node if type(n) is not Terminal and n.rule._tx_class is not RULE_MATCH): the
-   second test compares a class with a string constant and is always true *)
+(* abstract rule with several children (model.py, after the C03 repair):
+     nonterminals = [n for n in node if type(n) is not Terminal]
+     for n in nonterminals: if n.rule._tx_class._tx_type != RULE_MATCH: return process_node(n)
+     if nonterminals: return process_node(nonterminals[0])
+   [kind_of xn] = Some true: class that is not a match rule; Some false: match rule; None: no _tx_class *)
+Fixpoint first_nonmatch (kind_of : nat -> option bool) (l : list tree) (top : option cur)
+  : option (bres (value * option cur)) :=
+  match l with
+  | [] => None
+  | x :: l' =>
+    match x with
+    | NT xn _ => match kind_of xn with
+                 | None => Some (BErr ECrash)
+                 | Some true => Some (rec x top)
+                 | Some false => first_nonmatch kind_of l' top
+                 end
+    | T _ _ _ _ => first_nonmatch kind_of l' top
+    end
+  end.
 Fixpoint first_nt (has_cls : nat -> bool) (l : list tree) (top : option cur)
   : option (bres (value * option cur)) :=
   match l with
@@ -325,6 +342,12 @@ Fixpoint pmatch (t : tree) : bres value :=
   end.
 
 Definition has_class (nid : nat) : bool := match info nid with IRule _ _ _ => true | _ => false end.
+Definition nonmatch_class (nid : nat) : option bool :=
+  match info nid with
+  | IRule RMatch _ _ => Some false
+  | IRule _ _ _ => Some true
+  | _ => None
+  end.
 Definition tree_nid (t : tree) : nat := match t with T n _ _ _ => n | NT n _ => n end.
 
 (* `n.rule is node.rule.sep` (after the fix; the original test was n.rule_name != "sep") *)
@@ -414,9 +437,13 @@ Fixpoint pnode (t : tree) (top : option cur) : bres (value * option cur) :=
         match rest with
         | [] => pnode k top
         | _ :: _ =>
-          match first_nt pnode has_class kids top with
+          match first_nonmatch pnode nonmatch_class kids top with
           | Some r => r
-          | None => BOk (VStr (List.concat (map tree_text kids)), top)
+          | None =>
+            match first_nt pnode has_class kids top with
+            | Some r => r
+            | None => BOk (VStr (List.concat (map tree_text kids)), top)
+            end
           end
         end
       end
